@@ -1,1 +1,660 @@
-fn main() {}
+//! C09 — Always-fsync WAL: a write reported durable survives a crash at any instant.
+//!
+//! One check, `workloads` (see DESIGN.md §3 C09 and /verif/notes/C09.md): a generated workload
+//! (waves of concurrent `write_durable` calls, group-commit size, rotation threshold, entry
+//! sizes, a fault script) is executed against `spawn_wal_actor(TraceWalStore, cfg)` on a fresh
+//! current-thread runtime; then, for the SAME workload, the fault-free run and EVERY
+//! single-fault placement of every applicable fault kind over all I/O calls of the fault-free
+//! run are executed too (thorough: also a second fault close behind the first). For every
+//! executed run and EVERY crash instant c (after each I/O call) the durable image is rebuilt
+//! from the store's log and recovered through `WalRotator::recover_all_entries`.
+
+mod trace_store;
+
+use proptest::prelude::*;
+use redis_sim::redis::SDS;
+use redis_sim::replication::lattice::{LamportClock, ReplicaId};
+use redis_sim::replication::state::{ReplicatedValue, ReplicationDelta};
+use redis_sim::streaming::wal::WalRotator;
+use redis_sim::streaming::wal_actor::spawn_wal_actor;
+use redis_sim::streaming::wal_config::{FsyncPolicy, WalConfig};
+use serde::{Deserialize, Serialize};
+use serde_json::json;
+use std::collections::{BTreeMap, BTreeSet};
+use std::path::PathBuf;
+use std::sync::Arc;
+use std::time::Duration;
+use trace_store::{synced_lens_after, Fault, Op, Rec, TraceWalStore};
+use vcore::runner::catch;
+use vcore::{CaseCtx, Level, Session};
+
+const KF_ROTATE: &str = "KF-C09-01";
+const KF_ERRPATH: &str = "KF-C09-02";
+
+// ---------------------------------------------------------------------------------------
+// case
+// ---------------------------------------------------------------------------------------
+
+#[derive(Clone, Debug, Serialize, Deserialize)]
+struct WriteSpec {
+    value_len: u16,
+    stamp: u64,
+}
+
+#[derive(Clone, Debug, Serialize, Deserialize)]
+struct FaultSpec {
+    /// position as a fraction of (number of I/O calls of the fault-free run + 2)
+    at: u16,
+    kind: Fault,
+}
+
+#[derive(Clone, Debug, Serialize, Deserialize)]
+struct Workload {
+    group_commit_max_entries: u8,
+    max_file_size: u32,
+    waves: Vec<Vec<WriteSpec>>,
+    faults: Vec<FaultSpec>,
+    /// the Shutdown message is queued right behind the writes of the last wave (the final
+    /// batch is then flushed by the shutdown path) instead of after all acks arrived
+    shutdown_behind_last_wave: bool,
+}
+
+fn fault_kind() -> impl Strategy<Value = Fault> {
+    prop_oneof![
+        3 => Just(Fault::WriteFail),
+        3 => (0u16..120).prop_map(Fault::Partial),
+        3 => Just(Fault::FsyncFail),
+        1 => (0u16..4).prop_map(Fault::DiskFull),
+    ]
+}
+
+fn workload() -> impl Strategy<Value = Workload> {
+    let write = (
+        prop_oneof![3 => 0u16..24, 2 => 24u16..120, 1 => 120u16..400],
+        prop_oneof![4 => 0u64..50, 1 => any::<u64>()],
+    )
+        .prop_map(|(value_len, stamp)| WriteSpec { value_len, stamp });
+    (
+        1u8..=8,
+        prop_oneof![
+            // rotate after every entry
+            2 => Just(17u32),
+            // a few entries per file: batches straddle rotations
+            5 => 80u32..400,
+            3 => 400u32..1500,
+            // never rotates
+            1 => Just(1u32 << 24),
+        ],
+        proptest::collection::vec(proptest::collection::vec(write, 1..=12), 1..=4),
+        proptest::collection::vec((any::<u16>(), fault_kind()).prop_map(|(at, kind)| FaultSpec { at, kind }), 0..=3),
+        prop::bool::weighted(0.25),
+    )
+        .prop_map(
+            |(group_commit_max_entries, max_file_size, waves, faults, shutdown_behind_last_wave)| Workload {
+                group_commit_max_entries,
+                max_file_size,
+                waves,
+                faults,
+                shutdown_behind_last_wave,
+            },
+        )
+}
+
+// ---------------------------------------------------------------------------------------
+// one run
+// ---------------------------------------------------------------------------------------
+
+struct WriteOutcome {
+    /// Ok(()) / Err(text) as returned by write_durable
+    result: Result<(), String>,
+    /// number of I/O calls the store had seen when the harness observed the result
+    seen_at: u64,
+}
+
+struct RunResult {
+    log: Vec<Rec>,
+    files: BTreeMap<String, Vec<u8>>,
+    /// by global write index
+    outcomes: Vec<WriteOutcome>,
+}
+
+/// (payload bytes as the WAL must hold them, stamp) per global write index
+fn make_deltas(w: &Workload) -> Vec<(Arc<ReplicationDelta>, Vec<u8>, u64)> {
+    let mut out = Vec::new();
+    let mut idx = 0usize;
+    for wave in &w.waves {
+        for ws in wave {
+            let rid = ReplicaId::new(1 + (idx as u64 % 3));
+            let value = vec![(idx as u8).wrapping_mul(37).wrapping_add(1); ws.value_len as usize];
+            let rv = ReplicatedValue::with_value(
+                SDS::new(value),
+                LamportClock {
+                    time: ws.stamp,
+                    replica_id: rid,
+                },
+            );
+            let delta = ReplicationDelta::new(format!("w{}", idx), rv, rid);
+            let bytes = bincode::serialize(&delta).expect("bincode of a delta");
+            out.push((Arc::new(delta), bytes, ws.stamp));
+            idx += 1;
+        }
+    }
+    out
+}
+
+fn run(w: &Workload, deltas: &[(Arc<ReplicationDelta>, Vec<u8>, u64)], faults: &[(u64, Fault)]) -> Result<RunResult, String> {
+    let store = TraceWalStore::new(faults);
+    let cfg = WalConfig {
+        enabled: true,
+        wal_dir: PathBuf::from("/nonexistent-c09"),
+        fsync_policy: FsyncPolicy::Always,
+        max_file_size: (w.max_file_size as usize).max(17),
+        group_commit_max_entries: w.group_commit_max_entries.max(1) as usize,
+        group_commit_max_wait: Duration::ZERO,
+        truncation_check_interval: Duration::from_secs(3600),
+    };
+    let st = store.clone();
+    let outcomes: Result<Vec<WriteOutcome>, String> = catch(move || {
+        vcore::block_on(async move {
+            let (handle, task) = spawn_wal_actor(st.clone(), cfg).map_err(|e| format!("spawn_wal_actor failed: {}", e))?;
+            let mut outcomes: Vec<WriteOutcome> = Vec::new();
+            let mut idx = 0usize;
+            let mut shutdown_task = None;
+            for (wi, wave) in w.waves.iter().enumerate() {
+                let mut joins = Vec::new();
+                for _ in wave {
+                    let h = handle.clone();
+                    let s2 = st.clone();
+                    let (delta, _, stamp) = deltas[idx].clone();
+                    idx += 1;
+                    joins.push(tokio::spawn(async move {
+                        let r = h.write_durable(delta, stamp).await;
+                        (r.map_err(|e| e.to_string()), s2.calls())
+                    }));
+                }
+                if w.shutdown_behind_last_wave && wi + 1 == w.waves.len() {
+                    let h = handle.clone();
+                    shutdown_task = Some(tokio::spawn(async move { h.shutdown().await }));
+                }
+                for j in joins {
+                    match j.await {
+                        Ok((result, seen_at)) => outcomes.push(WriteOutcome { result, seen_at }),
+                        Err(e) => return Err(format!("a write_durable call panicked: {}", e)),
+                    }
+                }
+            }
+            match shutdown_task {
+                Some(t) => {
+                    let _ = t.await;
+                }
+                None => handle.shutdown().await,
+            }
+            drop(handle);
+            if let Err(e) = task.await {
+                return Err(format!(
+                    "the WAL actor task ended abnormally: {} ({})",
+                    e,
+                    vcore::runner::take_last_panic().unwrap_or_default()
+                ));
+            }
+            Ok(outcomes)
+        })
+    })
+    .and_then(|r| r);
+    Ok(RunResult {
+        log: store.log(),
+        files: store.final_files(),
+        outcomes: outcomes?,
+    })
+}
+
+// ---------------------------------------------------------------------------------------
+// oracle
+// ---------------------------------------------------------------------------------------
+
+fn show_log(log: &[Rec]) -> String {
+    let mut s = String::new();
+    for (i, r) in log.iter().enumerate() {
+        let f = r.file.trim_start_matches("wal-").trim_end_matches(".wal").trim_start_matches('0');
+        let what = match r.op {
+            Op::Create => format!("create f{}", f),
+            Op::Append => {
+                if r.offset == 0 && r.requested == 16 {
+                    format!("append f{} header", f)
+                } else {
+                    format!("append f{} @{}+{}", f, r.offset, r.requested)
+                }
+            }
+            Op::Sync => format!("fsync f{} (synced_len={})", f, r.synced_after),
+        };
+        let tail = match (&r.fault, r.ok) {
+            (Some(fl), _) => format!(" !! {:?}{}", fl, if r.op == Op::Append && r.written > 0 { format!(" ({} bytes written)", r.written) } else { String::new() }),
+            (None, false) => " failed".to_string(),
+            _ => String::new(),
+        };
+        s.push_str(&format!("    #{} {}{}\n", i, what, tail));
+    }
+    s
+}
+
+struct Verdict {
+    instants: u64,
+    recoveries: u64,
+    tolerated_rotate: u64,
+    tolerated_errpath: u64,
+    acked: usize,
+    failed: usize,
+}
+
+/// Why is acknowledged write `wi`, appended by log record `a`, not durable? (reading the log)
+enum Cause {
+    /// its file was closed by a rotation (next file created) and never fsynced afterwards
+    RotatedUnsynced,
+    /// a later append to its file failed, the writer was dropped, the file never fsynced
+    DroppedAfterAppendError,
+    Other(String),
+}
+
+fn cause(log: &[Rec], a: usize) -> Cause {
+    let file = &log[a].file;
+    let synced_later = log[a + 1..].iter().any(|r| r.op == Op::Sync && &r.file == file);
+    for r in &log[a + 1..] {
+        match r.op {
+            Op::Sync if &r.file == file => {
+                return Cause::Other(if r.ok {
+                    "acknowledged before the fsync that covers it".to_string()
+                } else {
+                    "the fsync that should cover it failed, yet the write was acknowledged".to_string()
+                });
+            }
+            Op::Append if &r.file == file && !r.ok => {
+                if synced_later {
+                    return Cause::Other("append error on its file, later fsync exists".to_string());
+                }
+                return Cause::DroppedAfterAppendError;
+            }
+            Op::Create => {
+                if synced_later {
+                    return Cause::Other("its file was rotated away, a later fsync of it exists".to_string());
+                }
+                return Cause::RotatedUnsynced;
+            }
+            _ => {}
+        }
+    }
+    Cause::Other("no fsync of its file was ever issued after it was appended".to_string())
+}
+
+/// write index -> index of the log record of the successful append that holds its bytes
+fn locate_appends(deltas: &[(Arc<ReplicationDelta>, Vec<u8>, u64)], r: &RunResult) -> BTreeMap<usize, usize> {
+    let by_data: BTreeMap<&[u8], usize> = deltas.iter().enumerate().map(|(i, d)| (&d.1[..], i)).collect();
+    let mut appended_at: BTreeMap<usize, usize> = BTreeMap::new();
+    for (li, rec) in r.log.iter().enumerate() {
+        if rec.op == Op::Append && rec.ok && rec.requested > 16 {
+            if let Some(bytes) = r.files.get(&rec.file) {
+                if rec.offset + rec.requested <= bytes.len() {
+                    let payload = &bytes[rec.offset + 16..rec.offset + rec.requested];
+                    if let Some(&wi) = by_data.get(payload) {
+                        appended_at.entry(wi).or_insert(li);
+                    }
+                }
+            }
+        }
+    }
+    appended_at
+}
+
+fn check_run(
+    w: &Workload,
+    deltas: &[(Arc<ReplicationDelta>, Vec<u8>, u64)],
+    faults: &[(u64, Fault)],
+    r: &RunResult,
+    ctx: &mut CaseCtx<'_>,
+) -> Result<Verdict, String> {
+    let n = r.log.len();
+    let by_data: BTreeMap<&[u8], usize> = deltas.iter().enumerate().map(|(i, d)| (&d.1[..], i)).collect();
+    let synced = synced_lens_after(&r.log);
+    // where was each write appended (log index of the successful append holding its bytes)
+    let appended_at = locate_appends(deltas, r);
+    let context = |extra: &str| -> String {
+        format!(
+            "{}\n  config: group_commit_max_entries={} max_file_size={} waves={:?} shutdown_behind_last_wave={}\n  faults: {:?}\n  I/O calls:\n{}",
+            extra,
+            w.group_commit_max_entries,
+            w.max_file_size,
+            w.waves.iter().map(|v| v.len()).collect::<Vec<_>>(),
+            w.shutdown_behind_last_wave,
+            faults,
+            show_log(&r.log)
+        )
+    };
+    let mut v = Verdict {
+        instants: (n + 1) as u64,
+        recoveries: 0,
+        tolerated_rotate: 0,
+        tolerated_errpath: 0,
+        acked: r.outcomes.iter().filter(|o| o.result.is_ok()).count(),
+        failed: r.outcomes.iter().filter(|o| o.result.is_err()).count(),
+    };
+    // acks sorted by the instant from which they are demanded
+    let mut acks: Vec<(u64, usize)> = r
+        .outcomes
+        .iter()
+        .enumerate()
+        .filter(|(_, o)| o.result.is_ok())
+        .map(|(i, o)| (o.seen_at, i))
+        .collect();
+    acks.sort();
+    let mut tolerated: BTreeSet<usize> = BTreeSet::new();
+    let mut prev_key: Option<(BTreeMap<String, usize>, usize)> = None;
+    for c in 0..=n {
+        let n_acked = acks.iter().take_while(|(at, _)| *at <= c as u64).count();
+        let key = (synced[c].clone(), n_acked);
+        if prev_key.as_ref() == Some(&key) {
+            // same durable image and same set of acknowledged writes as at c-1: same verdict
+            continue;
+        }
+        prev_key = Some(key);
+        // durable image at crash instant c
+        let mut image: BTreeMap<String, Vec<u8>> = BTreeMap::new();
+        for (name, &len) in &synced[c] {
+            let bytes = r.files.get(name).map(|b| &b[..len.min(b.len())]).unwrap_or(&[]);
+            image.insert(name.clone(), bytes.to_vec());
+        }
+        let img_store = TraceWalStore::from_files(image);
+        v.recoveries += 1;
+        let recovered = catch(|| WalRotator::new(img_store, 1 << 20).and_then(|rot| rot.recover_all_entries()))
+            .map_err(|p| context(&format!("recovery of the image after call #{} panicked: {}", c, p)))?
+            .map_err(|e| context(&format!("recovery of the image after call #{} failed: {}", c, e)))?;
+        let mut present: BTreeSet<usize> = BTreeSet::new();
+        for e in &recovered {
+            match by_data.get(&e.data[..]) {
+                Some(&wi) if deltas[wi].2 == e.timestamp => {
+                    if !present.insert(wi) {
+                        return Err(context(&format!(
+                            "crash after call #{}: write w{} is recovered twice",
+                            c, wi
+                        )));
+                    }
+                }
+                Some(&wi) => {
+                    return Err(context(&format!(
+                        "crash after call #{}: write w{} is recovered with stamp {} but was written with stamp {}",
+                        c, wi, e.timestamp, deltas[wi].2
+                    )));
+                }
+                None => {
+                    return Err(context(&format!(
+                        "crash after call #{}: recovery returns an entry that was never written (len={} stamp={})",
+                        c,
+                        e.data.len(),
+                        e.timestamp
+                    )));
+                }
+            }
+        }
+        for &(at, wi) in &acks[..n_acked] {
+            if present.contains(&wi) || tolerated.contains(&wi) {
+                continue;
+            }
+            let why = match appended_at.get(&wi) {
+                None => Cause::Other("its bytes were never completely appended to any file".to_string()),
+                Some(&a) => cause(&r.log, a),
+            };
+            let (id, text) = match &why {
+                Cause::RotatedUnsynced => (
+                    Some(KF_ROTATE),
+                    "its file was closed by a rotation (rotate() drops the old writer) and is never fsynced: WalRotator::sync covers only the current file".to_string(),
+                ),
+                Cause::DroppedAfterAppendError => (
+                    Some(KF_ERRPATH),
+                    "a later append to its file failed, WalRotator::append dropped the writer, and the batch's sync() was a no-op returning Ok".to_string(),
+                ),
+                Cause::Other(t) => (None, t.clone()),
+            };
+            let msg = format!(
+                "write w{} (stamp {}, appended by call #{}) was reported durable (write_durable returned Ok, seen by the harness after {} calls) but is NOT recovered after a crash following call #{}: {}",
+                wi,
+                deltas[wi].2,
+                appended_at.get(&wi).map(|a| a.to_string()).unwrap_or_else(|| "-".into()),
+                at,
+                c,
+                text
+            );
+            match id {
+                Some(id) if ctx.tolerate(id) => {
+                    tolerated.insert(wi);
+                    if id == KF_ROTATE {
+                        v.tolerated_rotate += 1;
+                    } else {
+                        v.tolerated_errpath += 1;
+                    }
+                }
+                _ => return Err(context(&msg)),
+            }
+        }
+    }
+    Ok(v)
+}
+
+/// single-fault kinds applicable to the call recorded as `rec`
+fn kinds_for(rec: &Rec) -> Vec<Fault> {
+    match rec.op {
+        Op::Append => {
+            let n = rec.requested as u16;
+            let mut v = vec![Fault::WriteFail, Fault::Partial(1), Fault::Partial(n / 2), Fault::Partial(n.saturating_sub(1)), Fault::DiskFull(1), Fault::DiskFull(0)];
+            v.dedup();
+            v
+        }
+        Op::Sync => vec![Fault::FsyncFail],
+        Op::Create => vec![Fault::WriteFail, Fault::DiskFull(0)],
+    }
+}
+
+/// Group-commit batches as the case determines them (all writers of a wave are queued before
+/// the actor runs, so a wave of n writes is committed in chunks of group_commit_max_entries),
+/// mapped to the files the fault-free run put the entries in.
+/// Returns (largest batch, some batch has entries in two files = it straddles a rotation).
+fn batch_shape(w: &Workload, deltas: &[(Arc<ReplicationDelta>, Vec<u8>, u64)], r: &RunResult) -> (usize, bool) {
+    let at = locate_appends(deltas, r);
+    let m = w.group_commit_max_entries.max(1) as usize;
+    let mut largest = 0;
+    let mut straddle = false;
+    let mut idx = 0usize;
+    for wave in &w.waves {
+        let mut k = 0;
+        while k < wave.len() {
+            let size = m.min(wave.len() - k);
+            largest = largest.max(size);
+            let files: BTreeSet<&String> = (idx + k..idx + k + size)
+                .filter_map(|wi| at.get(&wi).map(|&li| &r.log[li].file))
+                .collect();
+            if files.len() >= 2 {
+                straddle = true;
+            }
+            k += size;
+        }
+        idx += wave.len();
+    }
+    (largest, straddle)
+}
+
+fn check_workload(w: &Workload, ctx: &mut CaseCtx<'_>) -> Result<(), String> {
+    let thorough = ctx.tier() == vcore::Tier::Thorough;
+    let deltas = make_deltas(w);
+    let mut evals = 0u64;
+    let mut recoveries = 0u64;
+    let mut runs = 0u64;
+
+    // ---- fault-free run
+    let free = run(w, &deltas, &[])?;
+    let v = check_run(w, &deltas, &[], &free, ctx)?;
+    evals += v.instants;
+    recoveries += v.recoveries;
+    runs += 1;
+    let n0 = free.log.len();
+    let (largest, straddle) = batch_shape(w, &deltas, &free);
+    let n_files = free.files.len();
+    ctx.label(&format!("batch_max={}", largest.min(8)));
+    ctx.label(if straddle { "batch_straddles_rotation" } else { "no_straddle" });
+    ctx.label(&format!("files={}", if n_files >= 6 { "6+".into() } else { n_files.to_string() }));
+    if w.max_file_size <= 17 {
+        ctx.label("rotate_after_every_entry");
+    }
+    if v.failed > 0 {
+        // not a durability claim (and the 5 s ack timeout could cause it on a stalled machine)
+        ctx.label("fault_free_run_reports_a_failed_write");
+    }
+    if v.tolerated_rotate > 0 {
+        ctx.label("fault_free_run_loses_acked_write(KF-C09-01)");
+    }
+
+    // ---- the generated fault script (0..3 faults)
+    if !w.faults.is_empty() {
+        let script: Vec<(u64, Fault)> = {
+            let mut m: BTreeMap<u64, Fault> = BTreeMap::new();
+            for f in &w.faults {
+                m.insert(((f.at as u64) * (n0 as u64 + 2)) >> 16, f.kind);
+            }
+            m.into_iter().collect()
+        };
+        let r = run(w, &deltas, &script)?;
+        let v = check_run(w, &deltas, &script, &r, ctx)?;
+        evals += v.instants;
+        recoveries += v.recoveries;
+        runs += 1;
+        ctx.label(&format!("script_faults={}", script.len()));
+        if v.tolerated_errpath > 0 {
+            ctx.label("script_hits_KF-C09-02");
+        }
+    }
+
+    // ---- every single-fault placement over the calls of the fault-free run
+    for i in 0..n0 {
+        for kind in kinds_for(&free.log[i]) {
+            let fl = [(i as u64, kind)];
+            let r = run(w, &deltas, &fl)?;
+            if r.log.get(i).map(|x| x.fault.is_some()) != Some(true) {
+                return Err(format!(
+                    "harness: fault {:?} scripted for call #{} did not fire (the run is not a deterministic function of the case)\n{}",
+                    kind,
+                    i,
+                    show_log(&r.log)
+                ));
+            }
+            let v = check_run(w, &deltas, &fl, &r, ctx)?;
+            evals += v.instants;
+            recoveries += v.recoveries;
+            runs += 1;
+            // thorough: a second fault shortly behind the first
+            if thorough && n0 <= 40 {
+                for j in i + 1..(i + 7).min(r.log.len()) {
+                    let k2 = match r.log[j].op {
+                        Op::Append => Fault::WriteFail,
+                        Op::Sync => Fault::FsyncFail,
+                        Op::Create => Fault::WriteFail,
+                    };
+                    let fl2 = [(i as u64, kind), (j as u64, k2)];
+                    let r2 = run(w, &deltas, &fl2)?;
+                    let v2 = check_run(w, &deltas, &fl2, &r2, ctx)?;
+                    evals += v2.instants;
+                    recoveries += v2.recoveries;
+                    runs += 1;
+                }
+            }
+        }
+    }
+    let _ = recoveries;
+    ctx.label(&format!("runs_per_workload={}", match runs { 0..=9 => "<10", 10..=49 => "10-49", 50..=199 => "50-199", _ => "200+" }));
+    if largest >= 2 {
+        // every workload is executed under faults (the enumeration), so the rule reduces to
+        // "has a batch of >= 2 entries"
+        ctx.nontrivial(&(
+            w.group_commit_max_entries,
+            w.max_file_size,
+            w.waves.iter().map(|v| v.iter().map(|x| (x.value_len, x.stamp)).collect::<Vec<_>>()).collect::<Vec<_>>(),
+            w.shutdown_behind_last_wave,
+        ));
+    }
+    ctx.add_evaluations(evals + runs);
+    Ok(())
+}
+
+// ---------------------------------------------------------------------------------------
+
+fn ws(value_len: u16, stamp: u64) -> WriteSpec {
+    WriteSpec { value_len, stamp }
+}
+
+fn main() {
+    let args = vcore::parse_args();
+    let s = Session::new(
+        "C09",
+        Level::FaultEnumeration,
+        "a workload = 1..4 waves of 1..12 concurrent write_durable calls (value 0..400 bytes) against spawn_wal_actor(TraceWalStore) with \
+         FsyncPolicy::Always, group_commit_max_entries 1..8, group_commit_max_wait 0, max_file_size from 'rotate after every entry' to 'never', \
+         optional shutdown queued behind the last wave, and a generated script of 0..3 faults; per workload ENUMERATED: the fault-free run and every \
+         single fault (append fails / writes 1, half, all-but-one bytes then fails / disk full once / disk full for good / create fails / fsync fails) \
+         at every I/O call of the fault-free run (thorough: plus a second fault within the next 6 calls); per run EVERY crash instant (after each I/O \
+         call): durable image = bytes <= synced_len per file, recovered with WalRotator::recover_all_entries. non-trivial = the fault-free run has a \
+         group-commit batch of >= 2 entries (every workload is also run under faults); distinct by (config, entry sizes and stamps per wave)",
+        &args,
+    );
+    s.assume("crash model of the property: a crash keeps, per file, exactly the bytes covered by the last successful fsync of that file (TraceWalStore.synced_len); a created file exists (possibly empty)");
+    s.assume("an acknowledgement is attributed to the number of I/O calls the store had seen when the harness task observed write_durable returning Ok (never earlier than the real ack), so the check can only under-demand");
+    s.assume("current-thread tokio runtime: all writers of a wave enqueue before the actor runs; no verdict depends on a timer (group_commit_max_wait = 0 only yields; the 5 s ack timeout of write_durable would turn an Ok into an Err, which demands less)");
+
+    // ---- probes: minimal reproducers, nothing tolerated
+    s.probe(
+        KF_ROTATE,
+        json!({"group_commit_max_entries": 2, "max_file_size": 17, "waves": [[{"value_len": 3, "stamp": 1}, {"value_len": 3, "stamp": 2}]], "faults": []}),
+        || {
+            let w = Workload {
+                group_commit_max_entries: 2,
+                max_file_size: 17,
+                waves: vec![vec![ws(3, 1), ws(3, 2)]],
+                faults: vec![],
+                shutdown_behind_last_wave: false,
+            };
+            let deltas = make_deltas(&w);
+            let r = match run(&w, &deltas, &[]) {
+                Ok(r) => r,
+                Err(e) => return Some(e),
+            };
+            s.strict_eval(|ctx| check_run(&w, &deltas, &[], &r, ctx).map(|_| ()))
+                .err()
+                .map(|e| e.lines().next().unwrap_or("").to_string())
+        },
+    );
+    s.probe(
+        KF_ERRPATH,
+        json!({"group_commit_max_entries": 2, "max_file_size": 16777216, "waves": [[{"value_len": 3, "stamp": 1}, {"value_len": 3, "stamp": 2}]], "faults": [[3, "WriteFail"]]}),
+        || {
+            let w = Workload {
+                group_commit_max_entries: 2,
+                max_file_size: 1 << 24,
+                waves: vec![vec![ws(3, 1), ws(3, 2)]],
+                faults: vec![],
+                shutdown_behind_last_wave: false,
+            };
+            let deltas = make_deltas(&w);
+            // calls: #0 create, #1 header, #2 append w0, #3 append w1 (fails)
+            let fl = [(3u64, Fault::WriteFail)];
+            let r = match run(&w, &deltas, &fl) {
+                Ok(r) => r,
+                Err(e) => return Some(e),
+            };
+            s.strict_eval(|ctx| check_run(&w, &deltas, &fl, &r, ctx).map(|_| ()))
+                .err()
+                .map(|e| e.lines().next().unwrap_or("").to_string())
+        },
+    );
+
+    s.describe_check(
+        "workloads",
+        "per generated workload: fault-free run, generated fault script, every single-fault placement (thorough: + near second fault); per run every crash instant; acknowledged writes must be in the recovered durable image, nothing unwritten may be",
+    );
+    s.run_cases("workloads", s.scale(800, 12_000), workload, check_workload);
+
+    s.finish();
+}
